@@ -167,6 +167,43 @@ def test_bits_arrays(r, n):
             mismatch("Deserializer.fetch_*_array_of_standard_bit_length_primitives(%s x %d) at offset %d: %s != %s" % (a.dtype, len(a), off, list(b), list(a)))
 
 
+def test_state_between_reads(r, n):
+    """What one read returns belongs to the caller: writing into it must not be seen by any later read, in particular not by reads
+    beyond the end of (another) buffer, which are zeros by definition."""
+    for _ in range(n):
+        size = r.randint(0, 6)
+        buf = bytes(r.getrandbits(8) for _ in range(size))
+        d1 = ns.Deserializer.new([memoryview(buf)])
+        skip = r.choice([0, size, size + 1, size + 4])
+        d1.skip_bits(8 * skip)
+        count = r.randint(1, 40)
+        kind = r.choice(["bytes", "u16", "bits"])
+        try:
+            if kind == "bytes":
+                a = d1.fetch_aligned_bytes(count)
+            elif kind == "u16":
+                a = d1.fetch_aligned_array_of_standard_bit_length_primitives(np.uint16, count)
+            else:
+                a = d1.fetch_aligned_array_of_bits(count)
+        except Exception as e:
+            mismatch("read of %d %s after %d of %d bytes raised %r" % (count, kind, skip, size, e))
+            continue
+        C["calls"] += 1
+        try:
+            a[...] = True if kind == "bits" else 0xA5     # poison what we were handed, if it can be written to
+        except (ValueError, TypeError):
+            pass
+        # a later, unrelated read beyond the end
+        d2 = ns.Deserializer.new([memoryview(b"\x01")])
+        d2.skip_bits(8 * r.choice([1, 2, 9]))
+        n2 = r.randint(1, 40)
+        b = d2.fetch_aligned_bytes(n2) if r.random() < 0.6 else d2.fetch_aligned_array_of_standard_bit_length_primitives(np.uint16, n2)
+        C["calls"] += 1
+        if any(int(x) != 0 for x in b):
+            mismatch("read beyond the end of a buffer returned %s, not zeros, after an earlier result was written to" % list(b)[:8])
+            return
+
+
 def main():
     seed, thorough = int(sys.argv[1]), int(sys.argv[2])
     r = random.Random(seed)
@@ -174,6 +211,7 @@ def main():
     test_unsigned_signed(r, 15, 6 if thorough else 2)
     test_std(r, 3000 if thorough else 400)
     test_bits_arrays(r, 4000 if thorough else 500)
+    test_state_between_reads(r, 3000 if thorough else 400)
     print(json.dumps({"counters": C, "mismatches": OUT, "numpy": np.__version__}))
 
 
